@@ -110,6 +110,9 @@ func objectFamily(rng *rand.Rand) poolCase {
 }
 
 var c10Disturbers = []string{
+	// stores through a string index (accepted and lost today): whatever they write into must not be what a later run reads
+	"BEGIN { s = 'abc'; s[0] = 'X'; s[1]++; s[2] += 5; t = 'é日'; t[0] = 'q'; match (s[0]) { ch => { ch = 'poisoned' } } for (c in 'ab') { c = 'Z' } print s, t }",
+	"{ k = 'key'; k[0] = $; k[1] = [1]; k[2] = {a: 1}; print k } END { w = 'xyz'; for (i = 0; i < 3; i++) { w[i] = i; w[i]++ } print w }",
 	"BEGIN { o = {}; o.length = 5; a = []; a.push = 1; s = 'x'; s.upper = 2; n = 1.5; n.floor = 3; print o.length, a.length() }",
 	"BEGIN { o = {}; o.pluck = 'mine'; print o.pluck; p = {}; print p.pluck('a') }",
 	"function r(n) { return r(n + 1) } BEGIN { print 'deep'; r(1) }",
@@ -249,9 +252,23 @@ func unwritableFamily(rng *rand.Rand) poolCase {
 	return poolCase{prog: sb.String(), input: []byte("[1]"), kind: "unwritable-json-argument", multi: true, withMsg: true}
 }
 
+// stringIndexFamily: programs whose output is made of single characters read through s[i], for-in over strings and
+// split(''), over the same small alphabet the disturbers write to
+func stringIndexFamily(rng *rand.Rand) poolCase {
+	words := []string{"abc", "cab", "xyz", "key", "aXb", "é日a", "bca5", "zzz"}
+	w1, w2 := words[rng.IntN(len(words))], words[rng.IntN(len(words))]
+	prog := fmt.Sprintf("BEGIN { s = '%s'; t = '%s'; print s[0], s[1], s[2], t[0], t[%d]; for (i, ch in s) { print i, ch, ch == t[i] } print s.split('')[%d], (s + t)[%d], s[0] + t[0], s[0].upper(), s[1].length() }\n{ u = $.w; print u[0], u[1], u[u.length() - 1], u[0] == 'a' }",
+		w1, w2, rng.IntN(3), rng.IntN(3), rng.IntN(5))
+	in := fmt.Sprintf(`{"w": "%s"} {"w": "%s"}`, words[rng.IntN(len(words))], words[rng.IntN(len(words))])
+	return poolCase{prog: prog, input: []byte(in), kind: "string-index", multi: true}
+}
+
 func c10PoolRaw(rng *rand.Rand) poolCase {
 	if rng.IntN(25) == 0 {
 		return unwritableFamily(rng)
+	}
+	if rng.IntN(25) == 0 {
+		return stringIndexFamily(rng)
 	}
 	if rng.IntN(14) == 0 {
 		return caseFamily(rng)
